@@ -134,9 +134,9 @@ func (c *c21hConn) Read(p []byte) (int, error) {
 }
 
 type c21hCase struct {
-	Payload  string `json:"payload"` // small | large
-	Mode     string `json:"mode"`    // local | remote
-	Kind     string `json:"kind"`    // ok | storefail | eof | reset | srcfail
+	Payload  string `json:"payload"` // small | large; real-* modes: sqlcol | dbfile (the trigger)
+	Mode     string `json:"mode"`    // local | remote | real-leader | real-follower
+	Kind     string `json:"kind"`    // ok | storefail | eof | reset | srcfail; real-* modes: sql | binary (the format)
 	Compress bool   `json:"compress"`
 	N        int    `json:"n"`
 }
@@ -408,6 +408,10 @@ func TestVerif_C21(t *testing.T) {
 		if err := json.Unmarshal(raw, &cs); err != nil {
 			t.Fatal(err)
 		}
+		if cs.Mode == "real-leader" || cs.Mode == "real-follower" {
+			c21hRealSource(t, r, &cs)
+			return
+		}
 		ch := c21hNewChain(t)
 		defer ch.cl()
 		judge(ch, cs)
@@ -432,4 +436,206 @@ func TestVerif_C21(t *testing.T) {
 	}
 	wg.Wait()
 	r.State(len(cases))
+	c21hRealSource(t, r, nil)
+}
+
+type c21hLayer struct{ net.Listener }
+
+func (l *c21hLayer) Dial(addr string, timeout time.Duration) (net.Conn, error) {
+	return net.DialTimeout("tcp", addr, timeout)
+}
+
+// c21hRealSource: GET /db/backup when the backup fails inside a REAL Store.
+//
+//	real-leader    the http.Service's own Store is the real Store
+//	real-follower  the http.Service is not the leader: real proxy -> real cluster.Client
+//	               -> real cluster.Service -> the real Store
+//
+// Payload "sqlcol": a table (sorted after a healthy one) has a column name holding
+// a double quote, on which the real db.Dump fails after having emitted the first
+// table. Payload "dbfile": the main database file cannot be read while a binary
+// backup copies it. Oracle: if the local Store.Backup of the same request fails,
+// the HTTP client must not see a 2xx response that ends cleanly; if it succeeds,
+// such a response must carry the same backup.
+func c21hRealSource(t *testing.T, r *kit.Run, only *c21hCase) {
+	dir := kit.Scratch(t)
+	if st, err := os.Stat("/dev/shm"); err == nil && st.IsDir() {
+		if d, err := os.MkdirTemp("/dev/shm", "verif-c21h-"); err == nil {
+			t.Cleanup(func() { os.RemoveAll(d) })
+			dir = d
+		}
+	}
+	ln, err := net.Listen("tcp", "localhost:0")
+	if err != nil {
+		t.Fatal(err)
+	}
+	defer ln.Close()
+	sdir := filepath.Join(dir, "badnode")
+	st := store.New(&store.Config{DBConf: store.NewDBConfig(), Dir: sdir, ID: "c21hbad"}, &c21hLayer{ln})
+	if err := st.Open(); err != nil {
+		t.Fatalf("harness: open: %v", err)
+	}
+	defer st.Close(true)
+	if err := st.Bootstrap(store.NewServer(st.ID(), st.Addr(), true)); err != nil {
+		t.Fatalf("harness: bootstrap: %v", err)
+	}
+	if _, err := st.WaitForLeader(60 * time.Second); err != nil {
+		t.Fatalf("harness: leader: %v", err)
+	}
+	er := &command.ExecuteRequest{Request: &command.Request{Transaction: true}}
+	for _, q := range []string{
+		`CREATE TABLE a_ok(id INTEGER PRIMARY KEY, v TEXT)`,
+		`INSERT INTO a_ok VALUES(1,'one'),(2,'two'),(3,'three')`,
+		`CREATE TABLE b_bad(id INTEGER PRIMARY KEY, "we""ird" TEXT)`,
+		`INSERT INTO b_bad VALUES(1,'x')`,
+	} {
+		er.Request.Statements = append(er.Request.Statements, &command.Statement{Sql: q})
+	}
+	resp, _, err := st.Execute(context.Background(), er)
+	if err != nil {
+		t.Fatalf("harness: execute: %v", err)
+	}
+	for _, rr := range resp {
+		if e := rr.GetError() + rr.GetE().GetError(); e != "" {
+			t.Fatalf("harness: %s", e)
+		}
+	}
+	if err := st.Snapshot(0); err != nil {
+		t.Fatalf("harness: snapshot: %v", err)
+	}
+
+	// the leader's inter-node service in front of the real Store
+	cln, err := net.Listen("tcp", "localhost:0")
+	if err != nil {
+		t.Fatal(err)
+	}
+	mux, err := tcp.NewMux(cln, nil)
+	if err != nil {
+		t.Fatal(err)
+	}
+	go mux.Serve()
+	leader := cluster.New(mux.Listen(cluster.MuxClusterHeader), st, c21hMgr{}, c21hCred{})
+	if err := leader.Open(); err != nil {
+		t.Fatal(err)
+	}
+	defer func() { leader.Close(); cln.Close(); mux.Close() }()
+
+	// follower: not the leader, forwards
+	fm := &MockStore{leaderAddr: leader.Addr()}
+	fm.backupFn = func(br *command.BackupRequest, dst io.Writer) error { return store.ErrNotLeader }
+	fc := &mockClusterService{}
+	follower := New("127.0.0.1:0", fm, fc, proxy.New(fm, cluster.NewClient(tcp.NewDialer(cluster.MuxClusterHeader, nil), 20*time.Second)), nil)
+	if err := follower.Start(); err != nil {
+		t.Fatalf("harness: %v", err)
+	}
+	defer follower.Close()
+	// leader's own HTTP service: a Store whose Backup is the real Store's
+	lm := &MockStore{}
+	lm.backupFn = func(br *command.BackupRequest, dst io.Writer) error { return st.Backup(context.Background(), br, dst) }
+	lsvc := New("127.0.0.1:0", lm, fc, proxy.New(lm, fc), nil)
+	if err := lsvc.Start(); err != nil {
+		t.Fatalf("harness: %v", err)
+	}
+	defer lsvc.Close()
+
+	dbFile := filepath.Join(sdir, "db.sqlite")
+	breakFile := func() func() {
+		if err := os.Rename(dbFile, dbFile+".real"); err != nil {
+			t.Fatalf("harness: %v", err)
+		}
+		if err := os.Symlink(sdir, dbFile); err != nil {
+			t.Fatalf("harness: %v", err)
+		}
+		return func() {
+			os.Remove(dbFile)
+			if err := os.Rename(dbFile+".real", dbFile); err != nil {
+				t.Fatalf("harness: %v", err)
+			}
+		}
+	}
+
+	var cases []c21hCase
+	for _, mode := range []string{"real-leader", "real-follower"} {
+		for _, gz := range []bool{false, true} {
+			cases = append(cases,
+				c21hCase{"sqlcol", mode, "sql", gz, 0},
+				c21hCase{"sqlcol", mode, "binary", gz, 0},
+				c21hCase{"dbfile", mode, "binary", gz, 0})
+		}
+	}
+	if only != nil {
+		cases = []c21hCase{*only}
+	}
+	client := &http.Client{Transport: &http.Transport{DisableCompression: true}, Timeout: 60 * time.Second}
+	for _, cs := range cases {
+		restore := func() {}
+		if cs.Payload == "dbfile" {
+			restore = breakFile()
+		}
+		br := &command.BackupRequest{Format: command.BackupRequest_BACKUP_REQUEST_FORMAT_BINARY, Leader: true, Compress: cs.Compress}
+		q := "?timeout=20s&fmt=binary"
+		if cs.Kind == "sql" {
+			br.Format = command.BackupRequest_BACKUP_REQUEST_FORMAT_SQL
+			q = "?timeout=20s&fmt=sql"
+		}
+		if cs.Compress {
+			q += "&compress"
+		}
+		var local bytes.Buffer
+		lerr := st.Backup(context.Background(), br, &local)
+		svc := lsvc
+		if cs.Mode == "real-follower" {
+			svc = follower
+			// a fresh client (and connection pool) per request: the connection of an exchange the
+			// leader ended must not be what the next case runs on
+			follower.proxy = proxy.New(fm, cluster.NewClient(tcp.NewDialer(cluster.MuxClusterHeader, nil), 20*time.Second))
+		}
+		ok, body, what := false, []byte(nil), ""
+		resp, err := client.Get("http://" + svc.Addr().String() + "/db/backup" + q)
+		if err != nil {
+			what = "transport error: " + c21hShort(err.Error())
+		} else {
+			var rerr error
+			body, rerr = io.ReadAll(resp.Body)
+			resp.Body.Close()
+			switch {
+			case resp.StatusCode < 200 || resp.StatusCode > 299:
+				what = fmt.Sprintf("status %d", resp.StatusCode)
+			case rerr != nil:
+				what = fmt.Sprintf("status %d, body aborted: %s", resp.StatusCode, c21hShort(rerr.Error()))
+			default:
+				ok, what = true, fmt.Sprintf("status %d, body of %d bytes ended cleanly", resp.StatusCode, len(body))
+			}
+		}
+		restore()
+		r.Eval(1)
+		gzs := "uncompressed"
+		if cs.Compress {
+			gzs = "compressed"
+		}
+		lo := "local-ok"
+		if lerr != nil {
+			lo = "local-error"
+		}
+		t.Logf("real source %s: local err=%v; http: %s", cs, lerr, what)
+		if !ok {
+			r.Distinct(fmt.Sprintf("%s %s %s %s %s => error: %s", cs.Payload, cs.Mode, cs.Kind, gzs, lo, what))
+			continue
+		}
+		if lerr == nil && bytes.Equal(body, local.Bytes()) {
+			r.Distinct(fmt.Sprintf("%s %s %s %s %s => success, complete", cs.Payload, cs.Mode, cs.Kind, gzs, lo))
+			continue
+		}
+		r.Distinct(fmt.Sprintf("%s %s %s %s %s => success, INCOMPLETE", cs.Payload, cs.Mode, cs.Kind, gzs, lo))
+		why := fmt.Sprintf("the Store cannot produce this backup (local Store.Backup: %v)", lerr)
+		if lerr == nil {
+			why = fmt.Sprintf("it differs from the local backup of %d bytes", local.Len())
+		}
+		path := "http-leader"
+		if cs.Mode == "real-follower" {
+			path = "http-follower"
+		}
+		r.Violation(fmt.Sprintf("C21:source-failure-reported-success:%s:%s:%s", cs.Kind, path, gzs),
+			fmt.Sprintf("%s: %s, but %s", cs, what, why), cs)
+	}
 }
